@@ -116,6 +116,9 @@ def operand_text(a, shape, A, variant, label=None, symtab=None):
     if k == "AutoDecDef":
         return "@-(%s)" % R
     if k == "Index":
+        if variant % 5 == 2:
+            # the offset as an unbracketed expression whose tighter-binding operator comes last: v-6 + 2*3
+            return "%s+2*3(%s)" % (octs(v - 6), R)
         return "%s(%s)" % (octs(v), R)
     if k == "IndexDef":
         if v == 0 and variant % 5 == 0:
